@@ -30,7 +30,8 @@ ASSUMPTIONS = [
 
 
 def linear_ops(h: Harness, rng):
-    lens = [1, 2, 3, 8, 64] + ([256, 512] if h.thorough else [])
+    # (lengths beyond the default of 256 too: "at most one gene" does not depend on how long the genotype is)
+    lens = [1, 2, 3, 8, 64, 512, 1024] + ([256, 257, 4096] if h.thorough else [])
     for L in lens:
         for _ in range(h.n(8, 60)):
             for name, mod, cls, top, cut in (("GE", ge_mod, GE, sys.maxsize, L - 1), ("Stack", stack_mod, Stack, 10000, 255)):
@@ -59,6 +60,66 @@ def linear_ops(h: Harness, rng):
                                 f"child gene not from a parent at the same locus (L={L})", [name, list(p1.dna), list(p2.dna), draws])
                         if len(c.dna) != L:
                             h.fail(site, "length-not-preserved", f"child length {len(c.dna)} != {L}", [name, L, draws])
+
+
+def mutation_step_ops(h: Harness, rng):
+    """point mutation as the SEARCH applies it: the individuals leaving GenericMutationStep(1) differ from the individuals that
+    entered it, position by position, in at most one gene and have the same length -- also when the representation's mapping can
+    fail for some genotypes (stack-based mapping of short genomes)"""
+    import signal
+    import pargrammar
+    from geneticengine.algorithms.gp.operators.mutation import GenericMutationStep
+    from geneticengine.evaluation.sequential import SequentialEvaluator
+    from geneticengine.problems import SingleObjectiveProblem
+    from geneticengine.random.sources import NativeRandomSource
+    from geneticengine.solutions.individual import Individual
+    g = pargrammar.grammar()
+    problem = SingleObjectiveProblem(lambda p: 0.0)
+
+    def alarm(signum, frame):
+        raise TimeoutError()
+    shared = NativeRandomSource(1)
+    for name, mk in (("Stack", lambda L: Stack(g, gene_length=L)), ("GE", lambda L: GE(g, synth.make_decider("grow", 4, shared, g), gene_length=L)),
+                     ("SGE", lambda L: SGE(g, synth.make_decider("grow", 4, shared, g), gene_length=L))):
+        for L in (20, 24, 32):
+            rep = mk(L)
+            r = NativeRandomSource(rng.randrange(10**6))
+            parents = [Individual(rep.create_genotype(r), rep) for _ in range(h.n(30, 150))]
+            before = [geno_flat(i.genotype) for i in parents]
+            old = signal.signal(signal.SIGALRM, alarm)
+            signal.alarm(60)
+            try:
+                out = list(GenericMutationStep(1).apply(problem, SequentialEvaluator(), rep, r, list(parents), len(parents), 0))
+            except TimeoutError:
+                h.fail(f"{name}:GenericMutationStep", "raises", f"GenericMutationStep(1) on {len(parents)} {name} genotypes of length {L} did not return within 60 s", [name, L])
+                continue
+            except Exception as e:  # noqa: BLE001
+                h.fail(f"{name}:GenericMutationStep", "raises", f"GenericMutationStep(1) on {name} genotypes of length {L}: {type(e).__name__}: {e}", [name, L])
+                continue
+            finally:
+                signal.alarm(0)
+                signal.signal(signal.SIGALRM, old)
+            h.count(f"mutation-step:{name}")
+            for j, (b0, o) in enumerate(zip(before, out)):
+                a = geno_flat(o.genotype)
+                h.seen(f"mutation-step:{name}:{L}:{j}:{hash(tuple(a)) % 9973}", nontrivial=True)
+                if len(a) != len(b0):
+                    h.fail(f"{name}:GenericMutationStep", "mutation-changes-shape", f"{name} (gene length {L}): individual #{j} left the step with {len(a)} genes, "
+                           f"it entered with {len(b0)}", [name, L, j])
+                    break
+                diff = [k for k in range(len(a)) if a[k] != b0[k]]
+                if len(diff) > 1:
+                    h.fail(f"{name}:GenericMutationStep", "mutation-changes-more-than-one-gene",
+                           f"{name} (gene length {L}): individual #{j} left GenericMutationStep(1) differing from the individual that entered in {len(diff)} genes "
+                           f"(loci {diff[:8]})", [name, L, j])
+                    break
+
+
+def geno_flat(genotype) -> list:
+    dna = genotype.dna
+    if isinstance(dna, dict):
+        return [x for k in sorted(dna, key=str) for x in [str(k)] + list(dna[k])]
+    return list(dna)
 
 
 def structured_ops(h: Harness, rng):
@@ -297,6 +358,7 @@ def tree_crossover_generations(h: Harness, rng):
 def run(h: Harness):
     tree_crossover_generations(h, h.rng)
     linear_ops(h, h.rng)
+    mutation_step_ops(h, h.rng)
     structured_ops(h, h.rng)
     dsge_ops(h, h.rng)
     dsge_histories(h, h.rng)
